@@ -54,3 +54,38 @@ static void op_hashbig(FILE *out, const char *id, char **a, int n) {
     fprintf(out, "%s OK ", id); put_hex(out, (unsigned char *)d, ht.digest_size); fputc('\n', out);
     free(d); free(buf); free(blk); zck_free(&zck);
 }
+
+/* HASHSEQ / HASHSEQO <t:segs;t:segs;...>: several digests computed one after the other through ONE zckHashType and ONE zckHash
+ * object, the way the library itself re-uses them (set_full_hash_type / set_chunk_hash_type re-run hash_setup on the type in
+ * place and hash_init on the live hash).  segs = hex segments separated by '|', or '!' = initialised and left unfinished
+ * (replaced by the next item, as when the hash type is changed after zck_init_write).  -> OK d1,d2,... (finished items) | ERR */
+static void op_hashseq(FILE *out, const char *id, char **a, int n) {
+    zckCtx *zck = zck_create();
+    zckHashType ht = {0};
+    zckHash h = {0};
+    char res[8192] = ""; size_t rl = 0; int any = 0;
+    char *copy = strdup(a[0]); char *save = NULL;
+    for(char *item = strtok_r(copy, ";", &save); item; item = strtok_r(NULL, ";", &save)) {
+        char *colon = strchr(item, ':');
+        if(!colon) { fprintf(out, "%s HARNESS-ERR item\n", id); return; }
+        *colon = 0;
+        int type = atoi(item); char *segs = colon + 1;
+        if(!hash_setup(zck, &ht, type) || !hash_init(zck, &h, &ht)) { fprintf(out, "%s ERR\n", id); return; }
+        if(strcmp(segs, "!") == 0) continue;
+        char *save2 = NULL;
+        for(char *t = strtok_r(segs, "|", &save2); t; t = strtok_r(NULL, "|", &save2)) {
+            size_t l; unsigned char *b = get_hex(t, &l);
+            if(l > 0 && !hash_update(zck, &h, (char *)b, l)) { fprintf(out, "%s ERR\n", id); return; }
+            free(b);
+        }
+        char *d = hash_finalize(zck, &h);
+        if(!d) { fprintf(out, "%s ERR\n", id); return; }
+        if(any) res[rl++] = ',';
+        for(int i = 0; i < ht.digest_size && rl + 3 < sizeof(res); i++) rl += sprintf(res + rl, "%02x", (unsigned char)d[i]);
+        any = 1;
+        free(d);
+    }
+    hash_close(&h);
+    fprintf(out, "%s OK %s\n", id, any ? res : "-");
+    free(copy); zck_free(&zck);
+}
